@@ -173,8 +173,8 @@ def run_property(prop, contract_module, tier='quick', seed=0, procs=None, extra_
             f['task'] = r['task']
             failures.append(f)
 
-    n_inst = sum(a['instances'] for a in records.values() if a['kind'] != 'probe')
-    n_dis = sum(a['discharged'] for a in records.values() if a['kind'] != 'probe')
+    n_inst = sum(a['instances'] for a in records.values() if a['kind'] not in ('probe', 'bounded'))
+    n_dis = sum(a['discharged'] for a in records.values() if a['kind'] not in ('probe', 'bounded'))
 
     if os.path.isdir(REPLAY_DIR):
         for fn in os.listdir(REPLAY_DIR):
@@ -261,6 +261,9 @@ def run_property(prop, contract_module, tier='quick', seed=0, procs=None, extra_
                           detail=e['detail'][:400], instances=e['count'],
                           known_finding=(e['known'] or {}).get('id')) for e in seen.values()],
             known_findings=[l for l in kf_lines],
+            bounded_clauses=[dict(clause=a['name'], evaluations=a['instances'], passed=a['discharged'],
+                                  note='BOUNDED stand-in: run-time check of the contract on generated inputs; not counted in obligations/discharged')
+                             for a in records.values() if a['kind'] == 'bounded'],
             source_sha256=file_hashes(),
             samples=samples[:8] or [dict(obligation=a['name'], instances=a['instances'], verdict='discharged' if a['discharged'] == a['instances'] else 'open')
                                     for a in list(records.values())[:5]],
